@@ -22,3 +22,35 @@ Theorem C14_every_registered_hook_sees_every_call :
     map snd (filter (fun x : nat * hook => Nat.eqb (fst x) r) (fanout (length epoch_hooks_registered) l)) = l.
 Proof. intros l r H. exact (fanout_each_hook_sees_every_call _ l r H). Qed.
 Print Assumptions C14_every_registered_hook_sees_every_call.
+
+(** no function of x/epochs recovers a panic and the keeper's hook wrappers defer nothing: a panicking hook leaves
+    BeginBlocker, so the block is not committed — the premise of the failing-receiver model ([step_f]) *)
+Theorem C14_hooks_not_recovered :
+  epochs_recover_sites = [] /\ keeper_AfterEpochEnd_defers = 0 /\ keeper_BeforeEpochStart_defers = 0.
+Proof. vm_compute. repeat split; reflexivity. Qed.
+
+Definition loop_iterates_all_in_order (l : loop_shape) : bool :=
+  l_ranges_over_receiver l && Nat.eqb (l_stmts_in_func l) 1 && Nat.eqb (l_stmts_in_body l) 1 &&
+  l_calls_same_method_on_element l && l_args_are_the_params_in_order l.
+
+(** MultiEpochHooks.AfterEpochEnd / BeforeEpochStart are one unconditional `for … range h` whose body is the single
+    call of the same method on the element with the same three arguments: all receivers, slice order ([fanout]) *)
+Theorem C14_multi_hooks_iterate_all_in_order :
+  loop_iterates_all_in_order multi_AfterEpochEnd_loop = true /\ loop_iterates_all_in_order multi_BeforeEpochStart_loop = true.
+Proof. vm_compute. split; reflexivity. Qed.
+
+(** so, on this tree: a block in which some receiver panics commits nothing, and a committed block delivered its
+    complete call list to every registered receiver *)
+Theorem C14_committed_advance_has_complete_delivery_on_this_tree :
+  epochs_recover_sites = [] ->
+  forall (g : trigger) (s : state) (lf : nat) (t h : BinNums.Z) (r : nat),
+    o_ok (snd (step_f g (s, lf) (Block t h))) = true -> r < length epoch_hooks_registered ->
+    map snd (filter (fun x : nat * hook => Nat.eqb (fst x) r)
+                    (fanout (length epoch_hooks_registered) (o_hooks (snd (step_f g (s, lf) (Block t h)))))) =
+    snd (begin_block s t h).
+Proof.
+  intros _ g s lf t h r Hok Hr.
+  destruct (committed_block_is_complete g s lf t h Hok) as [_ [_ E]]. rewrite E.
+  apply fanout_each_hook_sees_every_call. exact Hr.
+Qed.
+Print Assumptions C14_committed_advance_has_complete_delivery_on_this_tree.
